@@ -15,7 +15,8 @@ Theorem ok_iff :
     a_status (handle auth p raw c au hp o) = 200 <->
     (exists fa, gate auth p (auth_info raw) = Allow fa)
     /\ match dispatch c au with
-       | RHealth | RUdp => True
+       | RHealth => True
+       | RUdp => o = COk           (* the forwarder accepted the client (SOCKS5: its server did, within the establishment timeout) *)
        | RIcmp => o = COk          (* the ICMP forwarder is set up and made a multiplexer *)
        | RRefused => False
        | RConnect => au <> None /\ (c = true -> hp = true) /\ o = COk
@@ -25,7 +26,7 @@ Proof.
   destruct (gate auth p (auth_info raw)) as [fa| |]; cbn.
   - destruct (dispatch c au) eqn:D; cbn.
     + split; [intros _; split; [eauto|exact I]|reflexivity].
-    + split; [intros _; split; [eauto|exact I]|reflexivity].
+    + destruct o; cbn; split; try discriminate; try (intros [_ H]; discriminate); intros _; split; [eauto|reflexivity].
     + change ICMP_REFUSED_WHEN_NOT_SET_UP with true. cbn iota.
       destruct o; cbn; split; try discriminate; try (intros [_ H]; discriminate); intros _; split; [eauto|reflexivity].
     + split; [discriminate|intros [_ []]].
@@ -73,6 +74,21 @@ Proof.
   rewrite andb_false_r. destruct o; cbn; try contradiction; repeat split; reflexivity.
 Qed.
 Print Assumptions failure_codes.
+
+(* the UDP multiplexer that the forwarder does not accept (its upstream server refuses the client, fails, or does not
+   answer within the establishment timeout) is reported like a failed connection attempt: one 502 with the documented code *)
+Theorem refused_multiplexer_codes :
+  forall auth p raw fa hp o,
+    gate auth p (auth_info raw) = Allow fa -> o <> COk ->
+    let r := handle auth p raw true (Some UDP2) hp o in
+    a_status r = 502 /\ a_challenge r = false
+    /\ a_warning r = match o with CTimeout => 302 | CUnreachable => 301 | CNonRoutable => 310 | CLoopback => 311 | _ => 300 end.
+Proof.
+  intros auth p raw fa hp o G NO. unfold handle. rewrite G.
+  change (dispatch true (Some UDP2)) with RUdp. cbn iota.
+  destruct o; cbn; try contradiction; repeat split; reflexivity.
+Qed.
+Print Assumptions refused_multiplexer_codes.
 
 (* the reserved authorities are matched exactly: CONNECT to them is never a host to connect to,
    any other method on them is refused with 502 and no traffic; every other authority (different
